@@ -388,7 +388,7 @@ def install(lib):
         out.update(k)
         return out
 
-    lib.ns["flax.core"] = NS("flax.core", {"FrozenDict": FrozenDict})
+    lib.ns["flax.core"] = NS("flax.core", {"FrozenDict": CallableTag("FrozenDict", FrozenDict)})
     lib.ns["flax"] = NS("flax", {"struct": NS("flax.struct", {"dataclass": lambda ex, c: c, "field": lambda ex, **k: k.get("default")}),
                                  "core": lib.ns["flax.core"]})
 
@@ -611,6 +611,13 @@ def install(lib):
                         z3.And(0 <= r, r < cond.n, c(r), z3.ForAll([jv], z3.Implies(z3.And(0 <= jv, jv < r), z3.Not(c(jv)))))))
         return _ArgWhere(r)
 
+    def np_flip(ex, a, axis=None):
+        used(ex, "jnp.flip(a)[j] = a[n - 1 - j]")
+        if not isinstance(a, Arr):
+            raise Unsupported("flip on non-array")
+        jv = z3.Int("j!ew")
+        return Arr(z3.Lambda([jv], z3.Select(a.a, a.n - 1 - jv)), a.n)
+
     def np_searchsorted(ex, a, v, side="left", **k):
         used(ex, "jnp.searchsorted(a, v, side): for a non-decreasing a, the first index whose entry is >= v (side='left') / > v (side='right'), len(a) if none")
         if not isinstance(a, Arr):
@@ -646,7 +653,7 @@ def install(lib):
             return axiomatize_max(ex, [], x, "min")
         return x
 
-    common = dict(searchsorted=np_searchsorted, max=np_amax, min=np_amin, amax=np_amax, amin=np_amin, zeros=np_zeros, interp=np_interp, argwhere=np_argwhere, ones=np_ones, arange=np_arange, array=np_array, asarray=np_asarray, where=np_where, clip=np_clip, roll=np_roll, take=np_take, maximum=np_maximum, minimum=np_minimum,
+    common = dict(flip=np_flip, searchsorted=np_searchsorted, max=np_amax, min=np_amin, amax=np_amax, amin=np_amin, zeros=np_zeros, interp=np_interp, argwhere=np_argwhere, ones=np_ones, arange=np_arange, array=np_array, asarray=np_asarray, where=np_where, clip=np_clip, roll=np_roll, take=np_take, maximum=np_maximum, minimum=np_minimum,
                   isnan=np_isnan, ceil=np_ceil, floor=np_floor, sqrt=np_sqrt, zeros_like=np_zeros_like, ones_like=np_ones_like,
                   logical_and=np_logical("and"), logical_or=np_logical("or"), logical_not=np_logical_not, exp=np_exp, log=np_log, tanh=np_tanh,
                   arctanh=np_arctanh, abs=b_abs, square=lambda ex, x: ex.binop(ast.Mult(), x, x),
@@ -794,6 +801,9 @@ def install(lib):
 
         def unpack(self, ex, k):
             return [SPLIT(self.rng, i) for i in range(k)]
+
+        def pyvc_iter(self):
+            return [SPLIT(self.rng, i) for i in range(self.n)] if isinstance(self.n, int) else None
 
         def pyvc_getitem(self, ex, i):
             if isinstance(i, slice):
